@@ -145,6 +145,10 @@ def classify(pid, rc, out, timed_out, logf, res, stage_name, replay_hint=None):
             return
     if rc == 0 and not timed_out:
         return
+    if "VERIF-HARNESS" in out and "VERIF-VIOLATION" not in out:
+        # the harness' own set-up traffic went wrong (not a statement about the code under test)
+        res.undecided.append("%s: harness problem (see %s)" % (stage_name, logf))
+        return
     if rc is not None and rc < 0 and "VERIF-VIOLATION" not in out:
         res.undecided.append("%s: worker killed by signal %d (see %s)" % (stage_name, -rc, logf))
         return
